@@ -5,6 +5,7 @@
    unbounded histories of Connect / AuthOK / AuthFail / Kick / Heartbeat / Close (= late cleanup) / Tick events on
    arbitrary nodes, connections and clients. *)
 From TX Require Import Model.ConnState Proofs.ConnState Proofs.SideC08 Gen.C08.
+From TX Require Import Model.ConnStateThreads Proofs.ConnStateThreads.
 
 (* lookup_current.  Let X's most recent successful handshake be on connection c of node n (pre ++ AuthOK n c X :: post
    with no later login of X, no other handshake on c and no close of c in post), c an open connection of n whose id no
@@ -95,3 +96,67 @@ Print Assumptions C08_premises_satisfiable.
 Theorem C08_single_client_satisfiable : single_client (wit_pre ++ AuthOK 2 20 7 :: nv_post).
 Proof. exact single_client_example. Qed.
 Print Assumptions C08_single_client_satisfiable.
+
+(* ---------------------------------------------------------------------------------------------------------------
+   ALL INTERLEAVINGS at storage-call granularity (Model/ConnStateThreads.v over Base/Threads.v): any number of concurrent
+   FindClientNode / RegisterConnection / UnregisterConnection / RefreshConnection invocations on any nodes, every step
+   one Get / Set / Delete of the shared storage, every schedule.
+   --------------------------------------------------------------------------------------------------------------- *)
+
+(* lookups are transparent: under EVERY schedule the shared store (and every non-lookup invocation) evolves exactly as
+   in the system in which no lookup runs at all — a lookup in flight while a client moves between nodes cannot damage
+   the client's registration *)
+Theorem C08_lookups_do_not_disturb_any_schedule :
+  forall (s : tstate) (sched : list nat),
+  without_lookups (trun s sched) = trun (without_lookups s) sched
+  /\ fst (trun s sched) = fst (trun (without_lookups s) sched).
+Proof. intros s sched. exact (conj (without_lookups_run sched s) (lookups_do_not_disturb sched s)). Qed.
+Print Assumptions C08_lookups_do_not_disturb_any_schedule.
+
+(* lookup soundness for all interleavings: if every record in the store and every record a pending RegisterConnection is
+   about to write satisfies P ("was registered for that connection"), then under EVERY schedule every completed lookup
+   answer (n, c) is the node of a record registered for c — the two non-atomic reads never pair the node of one
+   registration with the connection of another *)
+Theorem C08_lookup_answers_registered_all_schedules :
+  forall (P : N -> crec -> Prop) (sched : list nat) (s : tstate) (i : nat) (n c : N),
+  sys_ok P s ->
+  nth_error (snd (trun s sched)) i = Some (TFindDone (TFound n c)) ->
+  exists x ctl, P c (x, n, ctl).
+Proof. exact lookup_answers_registered. Qed.
+Print Assumptions C08_lookup_answers_registered_all_schedules.
+
+(* NOT every interleaving is harmless for the writers: the repaired UnregisterConnection / RefreshConnection still read the
+   index and then write it in two storage calls.  Refuted with schedules (recorded as known findings, keys
+   race-unregister-read-delete-window / race-refresh-read-set-window), and shown to be EXACTLY that window. *)
+Theorem C08_unregister_window_refuted :
+  exists sched, all_done (trun unregister_window sched) = true /\
+                tfind (fst (trun unregister_window sched)) 7 = TAbsent /\
+                tcs (fst (trun unregister_window sched)) 2 = Some (7%N, 2%N, true).
+Proof. exact unregister_window_refuted. Qed.
+Print Assumptions C08_unregister_window_refuted.
+
+Theorem C08_refresh_window_refuted :
+  exists sched, all_done (trun refresh_window sched) = true /\
+                tfind (fst (trun refresh_window sched)) 7 = TFound 1 1 /\
+                tcs (fst (trun refresh_window sched)) 2 = Some (7%N, 2%N, true).
+Proof. exact refresh_window_refuted. Qed.
+Print Assumptions C08_refresh_window_refuted.
+
+Theorem C08_unregister_window_exact :
+  forallb (fun sched => tres_eqb (tfind (fst (trun unregister_window sched)) 7)
+                                 (if second_of_1_after 2 sched 0 0 then TAbsent else TFound 2 2))
+          (interleave 4 2) = true /\ length (interleave 4 2) = 15%nat.
+Proof. exact unregister_window_exact. Qed.
+Print Assumptions C08_unregister_window_exact.
+
+Theorem C08_refresh_window_exact :
+  forallb (fun sched => tres_eqb (tfind (fst (trun refresh_window sched)) 7)
+                                 (if second_of_1_after 3 sched 0 0 then TFound 1 1 else TFound 2 2))
+          (interleave 4 2) = true /\ length (interleave 4 2) = 15%nat.
+Proof. exact refresh_window_exact. Qed.
+Print Assumptions C08_refresh_window_exact.
+
+Theorem C08_interleaving_premises_satisfiable :
+  sys_ok window_P unregister_window /\ sys_ok window_P refresh_window.
+Proof. exact window_sys_ok. Qed.
+Print Assumptions C08_interleaving_premises_satisfiable.
